@@ -430,7 +430,7 @@ class Sim:
             if isinstance(r, O.Rect):
                 std = np.sqrt(np.maximum(np.diag(cov_i), 0))
                 lo, up = mu_i - std * sc_i, mu_i + std * sc_i
-                tol = 1e-9 * (np.abs(mu_i) + np.abs(std * sc_i) + 1e-300)
+                tol = 1e-9 * np.abs(mu_i) + 1e-6 * np.abs(std * sc_i) + 1e-12  # variances of two predict calls agree to ~1e-8
                 ok = np.all(np.abs(lo - r.lower) <= tol) and np.all(np.abs(up - r.upper) <= tol)
                 self.judge("C14", "rect")
                 if not ok:
@@ -438,8 +438,8 @@ class Sim:
                 if np.any(r.lower > r.upper):
                     self.violate("C14", "lower-gt-upper", {"i": i})
             else:
-                tolc = 1e-9 * (np.abs(mu_i) + 1e-300)
-                ok = np.all(np.abs(r.center - mu_i) <= tolc) and np.allclose(r.sigma, cov_i, rtol=1e-9, atol=1e-300) and abs(r.alpha - float(np.asarray(sc_i).reshape(-1)[0])) <= 1e-12 * abs(r.alpha)
+                tolc = 1e-9 * np.abs(mu_i) + 1e-12
+                ok = np.all(np.abs(r.center - mu_i) <= tolc) and np.allclose(r.sigma, cov_i, rtol=1e-6, atol=1e-9 * float(np.max(np.abs(cov_i))) + 1e-300) and abs(r.alpha - float(np.asarray(sc_i).reshape(-1)[0])) <= 1e-12 * abs(r.alpha)
                 self.judge("C14", "ell")
                 if not ok:
                     self.violate("C14", "region-not-prediction-scaled", {"i": i, "n_updated": len(idx)})
@@ -795,7 +795,7 @@ class Sim:
                     self.violate("C07", "batch-size", {"queried": len(keys), "expected": want})
                 else:
                     got = [vals[k] for k in keys]
-                    tol = lambda v: 1e-9 * abs(v) + 1e-300
+                    tol = lambda v: 1e-6 * abs(v) + 1e-15  # near-ties within the accuracy of two predict calls count as ties
                     for t in range(1, len(got)):
                         if got[t] > got[t - 1] + tol(got[t - 1]):
                             self.violate("C07", "batch-not-in-nonincreasing-order", {"values": got})
